@@ -109,7 +109,85 @@ def item(a: dict):
         else Node.input_name(a["i"] - 1)
 
 
+def run_job(job, order: list[str]):
+    """Run every task of the job through the real runner, one worker (one Memory) per task; returns what was observed."""
+    # ---- running: one worker (one Memory) per task, so that every input comes through shm + serde
+    shm = DictShm()
+    out: list = []
+    old = MEM.shm_client, MEM.callback, EP.callback
+    MEM.shm_client = shm.client()
+    MEM.callback = EP.callback = lambda addr, m: out.append(m)
+    del CALLS[:]
+    calls = []          # a call is attributed to the task during whose run it was observed
+    try:
+        psrc = param_source(job.edges)
+        for k, name in enumerate(order):     # a topological order
+            w = WorkerId("h", f"w{k}")
+            rc = EP.RunnerContext(workerId=w, job=job, callback="cb", param_source=psrc)
+            publish = {DatasetId(name, o) for o in job.tasks[name].definition.output_schema}
+            with Memory("cb", w) as mem:
+                EP.execute_sequence(TaskSequence(worker=w, tasks=[name], publish=publish), mem, PackagesEnv(), rc)
+            calls += [[name, t] for _, t in CALLS]
+            del CALLS[:]
+        # ---- what was published, read back through the real Memory.provide
+        datasets = []
+        with Memory("cb", WorkerId("h", "reader")) as mem:
+            for name, t in job.tasks.items():
+                for o in t.definition.output_schema:
+                    if ds2shmid(DatasetId(name, o)) in shm.data:
+                        datasets.append([name, o, render(mem.provide(DatasetId(name, o), "Any"))])
+    finally:
+        MEM.shm_client, MEM.callback, EP.callback = old
+    return (calls, [m.task or "" for m in out if isinstance(m, TaskFailure)],
+            [m.detail[:120] for m in out if isinstance(m, TaskFailure)], datasets)
+
+
+def observe_job(case: dict) -> dict:
+    """A hand-built job: tasks from TaskBuilder.from_callable(..).with_values(..) or raw TaskInstances, edges by hand."""
+    from cascade.low.builders import TaskBuilder
+    from cascade.low.core import JobInstance, Task2TaskEdge, TaskDefinition, TaskInstance
+
+    tasks, edges = {}, []
+    for j, nd in enumerate(case["nodes"], start=1):
+        f = recording_callable(f"n{j}", 1, ["t"])
+        shadow = nd["shadow"]
+        ps, kw = {}, {}
+        for p, a in enumerate(nd["args"]):
+            if a["t"] == "in":
+                src = nd["inputs"][a["i"] - 1]
+                edges.append(Task2TaskEdge(source=DatasetId(f"t{src[0]}", "0"), sink_task=f"t{j}", sink_input_ps=p, sink_input_kw=None))
+                if shadow["t"] != "absent":
+                    ps[str(p)] = item(shadow)
+            else:
+                ps[str(p)] = item(a)
+        for key, a in nd["kwargs"]:
+            if a["t"] == "in":
+                src = nd["inputs"][a["i"] - 1]
+                edges.append(Task2TaskEdge(source=DatasetId(f"t{src[0]}", "0"), sink_task=f"t{j}", sink_input_ps=None, sink_input_kw=key))
+                if shadow["t"] != "absent":
+                    kw[key] = item(shadow)
+            else:
+                kw[key] = item(a)
+        if nd["via"] == "from_callable":      # records the signature defaults as static keyword values
+            tasks[f"t{j}"] = TaskBuilder.from_callable(f).with_values(**kw)
+        else:
+            td = TaskDefinition(func=TaskDefinition.func_enc(f), environment=[], entrypoint="", input_schema={}, output_schema={"0": "Any"})
+            tasks[f"t{j}"] = TaskInstance(definition=td, static_input_kw=kw, static_input_ps=ps)
+    job = JobInstance(tasks=tasks, edges=edges)
+    names = list(tasks)
+    calls, failures, details, datasets = run_job(job, names)
+    return {"names": names, "declared": [["0"] for _ in names], "coords": [[] for _ in names],
+            "tasks": [{"name": n, "outputs": list(t.definition.output_schema.keys()),
+                       "static_ps": [[int(k), render(v)] for k, v in t.static_input_ps.items()],
+                       "static_kw": [[k, render(v)] for k, v in t.static_input_kw.items()]} for n, t in tasks.items()],
+            "edges": [[e.source.task, e.source.output, e.sink_task, -1 if e.sink_input_ps is None else e.sink_input_ps,
+                       "" if e.sink_input_kw is None else e.sink_input_kw] for e in job.edges],
+            "calls": calls, "failures": failures, "failure_details": details, "datasets": datasets}
+
+
 def observe(case: dict) -> dict:
+    if case.get("job"):
+        return observe_job(case)
     # ---- the graph, with the real fluent classes
     nodes: list[Node] = []
     coords = []
@@ -142,34 +220,6 @@ def observe(case: dict) -> dict:
               "static_kw": [[k, render(v)] for k, v in t.static_input_kw.items()]} for name, t in job.tasks.items()]
     edges = [[e.source.task, e.source.output, e.sink_task, -1 if e.sink_input_ps is None else e.sink_input_ps,
               "" if e.sink_input_kw is None else e.sink_input_kw] for e in job.edges]
-    # ---- running: one worker (one Memory) per task, so that every input comes through shm + serde
-    shm = DictShm()
-    out: list = []
-    old = MEM.shm_client, MEM.callback, EP.callback
-    MEM.shm_client = shm.client()
-    MEM.callback = EP.callback = lambda addr, m: out.append(m)
-    del CALLS[:]
-    calls = []          # a call is attributed to the task during whose run it was observed
-    try:
-        psrc = param_source(job.edges)
-        for k, node in enumerate(nodes):     # construction order is a topological order
-            w = WorkerId("h", f"w{k}")
-            rc = EP.RunnerContext(workerId=w, job=job, callback="cb", param_source=psrc)
-            publish = {DatasetId(node.name, o) for o in job.tasks[node.name].definition.output_schema}
-            with Memory("cb", w) as mem:
-                EP.execute_sequence(TaskSequence(worker=w, tasks=[node.name], publish=publish), mem, PackagesEnv(), rc)
-            calls += [[node.name, t] for _, t in CALLS]
-            del CALLS[:]
-        # ---- what was published, read back through the real Memory.provide
-        datasets = []
-        with Memory("cb", WorkerId("h", "reader")) as mem:
-            for name, t in job.tasks.items():
-                for o in t.definition.output_schema:
-                    if ds2shmid(DatasetId(name, o)) in shm.data:
-                        datasets.append([name, o, render(mem.provide(DatasetId(name, o), "Any"))])
-    finally:
-        MEM.shm_client, MEM.callback, EP.callback = old
+    calls, failures, details, datasets = run_job(job, [n.name for n in nodes])
     return {"names": [n.name for n in nodes], "declared": declared, "coords": coords, "tasks": tasks, "edges": edges,
-            "calls": calls,
-            "failures": [m.task or "" for m in out if isinstance(m, TaskFailure)],
-            "failure_details": [m.detail[:120] for m in out if isinstance(m, TaskFailure)], "datasets": datasets}
+            "calls": calls, "failures": failures, "failure_details": details, "datasets": datasets}
